@@ -456,11 +456,10 @@ theorem setNodata_value (v : NVal ν) : c.setNodata "nodata_value".toList v = { 
   unfold Config.setNodata; rw [if_neg (by decide), if_pos rfl]
 end SetLemmas
 
-/-- a grid as the property quantifies over it: admissible header fields, default `mindata/maxdata`, an
-`nrows × ncols` array of words of the grid's dtype -/
+/-- a grid as the property quantifies over it: admissible header fields, an `nrows × ncols` array of words of the
+grid's dtype (any `mindata/maxdata`) -/
 structure GridOK {ν : Type} (io : NumIO ν) (g : Grid ν) : Prop where
   header : HeaderOK io g
-  default_bounds : g.lo = none ∧ g.hi = none
   rows : (g.data.length : Int) = g.nrows
   cols : ∀ r ∈ g.data, (r.length : Int) = g.ncols
   words : ∀ r ∈ g.data, ∀ w ∈ r, w < wordBound g.dtype
